@@ -222,6 +222,32 @@ def prog_f(kind: int, has_lo: bool, lo: float, has_hi: bool, hi: float, inc_lo: 
     _body(kind, has_lo, lo, has_hi, hi, inc_lo, inc_hi, an, v, is_none, probe, cfg, pi)
 
 
+def inst_i(typ: int, has_lo: bool, lo: int, has_hi: bool, hi: int, inc_lo: bool, inc_hi: bool, v: int, probe: int) -> None:
+    """Per-instance Parameter objects: bounds edited on the instance govern both the state and the instance's schema."""
+    has_lo, has_hi, inc_lo, inc_hi = (pickbool(x) for x in (has_lo, has_hi, inc_lo, inc_hi))
+    if has_lo and has_hi:
+        assume(lo <= hi)
+    T = param.Integer if typ == 0 else param.Number
+    with untraced():
+        class P(param.Parameterized):
+            x = T(default=0, bounds=(-5, 5))
+        p = P()
+    p.param.x.bounds = (lo if has_lo else None, hi if has_hi else None)
+    p.param.x.inclusive_bounds = (inc_lo, inc_hi)
+    assume(_inb(v, has_lo, lo, inc_lo, has_hi, hi, inc_hi))
+    p.x = v
+    info = {'kind': 'instance-level ' + T.__name__, 'allow_None': False, 'is_none': False}
+    sch = p.param.schema()['x']
+    check('C16.wellformed', wellformed(sch), dict(info, schema=repr(sch)))
+    ser = jsonify(p.param.x.serialize(p.x))
+    check('C16.valid_state_validates', validates(sch, ser), dict(info, schema=repr(sch), ser=repr(ser)))
+    if (has_lo or has_hi) and not _inb(probe, has_lo, lo, inc_lo, has_hi, hi, inc_hi):
+        check('C16.out_of_bounds_rejected', not validates(sch, probe), dict(info, schema=repr(sch), probe=probe))
+    # the class-level schema still describes the class-level constraints
+    csch = P.param.schema()['x']
+    check('C16.valid_state_validates', validates(csch, 0) and not validates(csch, 6), dict(info, cls_schema=repr(csch)))
+
+
 prog_i.ranges = lambda consts: dict(cfg=(0, 4), pi=(0, 3))
 prog_f.ranges = lambda consts: dict(cfg=(0, 4), pi=(0, 3))
 
@@ -235,6 +261,8 @@ def shards(tier):
             if KINDS[kind] not in ('Integer', 'Number', 'Range'):
                 c.update(has_lo=False, lo=0, has_hi=False, hi=0, probe=0)
             out.append(dict(name='%s_an%d_i' % (KINDS[kind], an), module='harness.c16', fn='prog_i', consts=c, budget_s=60 if q else 300))
+    for typ in (0, 1):
+        out.append(dict(name='inst_%d' % typ, module='harness.c16', fn='inst_i', consts=dict(typ=typ), budget_s=60 if q else 300))
     for kind in (1, 2):
         for an in (False, True):
             out.append(dict(name='%s_an%d_f' % (KINDS[kind], an), module='harness.c16', fn='prog_f', consts=dict(kind=kind, an=an),
